@@ -21,6 +21,7 @@ void harness(void) {
 		g_pols[k].fallbackPolicy = (k + 1 < C05_NPOL && nondet_bool()) ? &g_pols[k + 1] : NULL;
 	}
 	g_pol_evals = 0; g_fb_env_failed = 0; g_tmp_frees = 0;
+	g_tmp_hash_p = (KSI_DataHash *)g_tmp_hash_obj; g_tmp_cal_p = (KSI_CalendarHashChain *)g_tmp_cal_obj; g_tmp_pub_p = (KSI_PublicationsFile *)g_tmp_pub_obj;
 	res = KSI_SignatureVerifier_verify(&g_pols[0], context, result);
 	REACH("returned");
 	if (res == KSI_OK && g_pol_evals == 1) REACH("first policy decides");
